@@ -17,6 +17,10 @@ For every momentum assignment this yields (q_end, p_end).  Checked on every libr
  * unselected addresses are bit-identical to the start trace, the new trace's score == log p(q_end),
  * the returned weight == H(start) - H(end),  H(q, p) = -log p(q) + |p|^2 / 2  (the sign convention of
    the library's docstring: "a weight which is equal to the alpha accept-reject ratio").
+SafeHMC(selection, eps, L) (HMC plus a static no-change assertion on the return value) is run on the
+models/selections whose return value is not moved: on every momentum path it must give bit-identical
+values, score and alpha to HMC(selection, eps, L) (differential, all L), and for L = 1 it is also
+compared with the leapfrog reference.  Reported with component "SafeHMC".
 The invariance clause ("accept/reject on alpha leaves the target invariant") is a mathematical
 consequence of these facts (volume preservation and reversibility of leapfrog) and is NOT explored.
 """
@@ -48,9 +52,9 @@ ASSUMPTIONS = [
 ]
 BOUNDS = {
     "quick": dict(L=[1, 2], eps=[0.1], starts=2, scan_length=2, models=["norm1", "lin2", "quad2", "scan", "mixb"],
-                  momentum_alphabet=3, max_dim=4),
+                  momentum_alphabet=3, max_dim=4, safe_hmc="lin2/sel=x and quad2/sel=x: SafeHMC == HMC per momentum path (all L), leapfrog for L=1"),
     "thorough": dict(L=[1, 2, 3], eps=[0.05, 0.2], starts=3, scan_length=3, models=["norm1", "lin2", "quad2", "scan", "mixb"],
-                     momentum_alphabet=3, max_dim=6),
+                     momentum_alphabet=3, max_dim=6, safe_hmc="lin2/sel=x and quad2/sel=x: SafeHMC == HMC per momentum path (all L), leapfrog for L=1"),
 }
 JOBS = {"quick": 4, "thorough": 12}
 
@@ -225,6 +229,10 @@ SELECTIONS = [
 ]
 
 
+# SafeHMC = HMC + a static assertion that the return value's change tag is NoChange: lin2 / quad2 return y
+SAFE_SELECTIONS = [("lin2", "x", ("x",)), ("quad2", "x", ("x",))]
+
+
 def build(name, scan_n):
     """real genjax model + argument tuple + reference model"""
     import jax.numpy as jnp
@@ -283,12 +291,12 @@ def build_selection(selname):
 # --------------------------------------------------------------------------------------------
 
 
-def _run(mname, selname, seladdrs, L, tier, seed):
+def _run(mname, selname, seladdrs, L, tier, seed, safe=False):
     def run(ctx):
         import jax
         import jax.numpy as jnp
         from genjax import ChoiceMap, Diff
-        from genjax.inference.requests import HMC
+        from genjax.inference.requests import HMC, SafeHMC
 
         from .. import seam
         from ..harness import base_key
@@ -302,7 +310,7 @@ def _run(mname, selname, seladdrs, L, tier, seed):
         moving = tuple(a for a in seladdrs if a in ref.cont)
         has_disc = any(a in ref.disc for a in seladdrs)
         klass = "selection_contains_discrete" if has_disc else ("L=1" if L == 1 else "L>=2")
-        comp, op = "HMC.edit", "edit"
+        comp, op = ("SafeHMC" if safe else "HMC.edit"), "edit"
         zs = seam.Z_ALPHABET
         is_scan = mname == "scan"
 
@@ -327,8 +335,9 @@ def _run(mname, selname, seladdrs, L, tier, seed):
             lp0 = ref.logp(a0)
             dims = [(a, i) for a in moving for i in range(max(1, int(np.size(a0[a]))))]
             for eps in b["eps"]:
-                req = HMC(selection, jnp.array(eps, dtype=jnp.float32), L)
-                detail0 = dict(model=mname, selection=selname, L=L, eps=eps, start=start)
+                req_plain = HMC(selection, jnp.array(eps, dtype=jnp.float32), L)
+                req = SafeHMC(selection, jnp.array(eps, dtype=jnp.float32), L) if safe else req_plain
+                detail0 = dict(model=mname, selection=selname, L=L, eps=eps, start=start, request="SafeHMC" if safe else "HMC")
                 # reference outcomes for every momentum assignment
                 expected = []
                 for zz in itertools.product(zs, repeat=len(dims)):
@@ -344,7 +353,7 @@ def _run(mname, selname, seladdrs, L, tier, seed):
                     expected.append(dict(z=zz, end=a1, logp=lp1, alpha=alpha))
                 ends = np.stack([np.concatenate([np.ravel(e["end"][a]) for a in moving]) for e in expected])
                 modes = [("jit", jedit)]
-                if tier == "thorough" and si == 0 and eps == b["eps"][0]:
+                if tier == "thorough" and si == 0 and eps == b["eps"][0] and not safe:
                     modes.append(("eager", edit))
                 for mode, fn in modes:
                     detail = dict(**detail0, mode=mode)
@@ -366,6 +375,21 @@ def _run(mname, selname, seladdrs, L, tier, seed):
                     ctx.note("paths", len(paths))
                     if mode == "jit" and abs(seam.total_prob(paths) - 1.0) > 1e-6:
                         ctx.fail(comp, op, klass, "sum_prob", dict(**detail, total=seam.total_prob(paths)))
+                    if safe:
+                        # differential: SafeHMC(sel, eps, L) == HMC(sel, eps, L) on every momentum path (same key, so the
+                        # same choice points); independent of the leapfrog reference, hence of the known L >= 2 finding
+                        with seam.seam(n_cont=len(zs)):
+                            plain, _ = seam.explore(lambda: jedit(key, tr, req_plain), max_paths=1024)
+                        by_table = {tuple(sorted(q.table.items())): q.result for q in plain}
+                        for p in paths:
+                            ctx.ev((mname, selname, L, eps, si, "safe_vs_hmc", tuple(sorted(p.table.items()))), nontrivial=True)
+                            ctx.note("safe_vs_hmc_paths")
+                            q = by_table.get(tuple(sorted(p.table.items())))
+                            if q is None or any(not np.array_equal(np.asarray(p.result[k]), np.asarray(q[k])) for k in p.result):
+                                ctx.fail(comp, op, klass, "differs_from_HMC",
+                                         dict(**detail, safe={k: p.result[k] for k in p.result}, hmc=q if q is not None else "no HMC path with the same momentum draws"))
+                        if L > 1:  # the leapfrog reference is applied to SafeHMC for L = 1 only
+                            continue
                     mass, off_trajectory = {}, 0
                     for p in paths:
                         r = p.result
@@ -411,3 +435,8 @@ def cases(tier, seed):
                 continue
             yield Case(f"{mname}/sel={selname}/L={L}", _run(mname, selname, seladdrs, L, tier, seed),
                        dict(model=mname, selection=selname, L=L))
+    # SafeHMC (asserts an unchanged return value: only selections that leave the model's return value alone)
+    for mname, selname, seladdrs in SAFE_SELECTIONS:
+        for L in BOUNDS[tier]["L"]:
+            yield Case(f"SafeHMC/{mname}/sel={selname}/L={L}", _run(mname, selname, seladdrs, L, tier, seed, safe=True),
+                       dict(model=mname, selection=selname, L=L, request="SafeHMC"))
